@@ -237,6 +237,19 @@ namespace sim
       ledger_deallocate (p, static_cast<std::size_t> (n), id, Cfg::always_equal);
     }
 
+    // optional allocate-with-hint member (only with Cfg::has_hint): the header passes the end of
+    // the current allocation as the hint
+    template <class C = Cfg, typename std::enable_if<C::has_hint, int>::type = 0>
+    T *
+    allocate (size_type n, const void *hint)
+    {
+      ++hint_calls ();
+      (void) hint;
+      return allocate (n);
+    }
+
+    static std::uint64_t& hint_calls (void) { static std::uint64_t c = 0; return c; }
+
     sim_alloc
     select_on_container_copy_construction (void) const noexcept
     {
